@@ -55,6 +55,13 @@ def _all(tier):
         out.append({"circuit": {"kind": "pipe", "base": b, "ops": [["square"], ["conjugate"], ["integrate", [b["ids"][0], b["ids"][2]]]]}})
         out.append({"circuit": {"kind": "pipe", "base": b, "ops": [["multiply_conj"]]}})
     out.append({"circuit": {"kind": "pipe", "base": bases[0], "ops": [["evidence", {"1": 2}], ["conjugate"]]}})
+    # conjugate of PRODUCTS whose factor weights are reparameterised (softmax / exp) or already conjugated
+    for w in ("softmax", "exp"):
+        bw = H(name="nested", K=2, input="embedding", ids=[0, 1, 2], weights=w)
+        out.append({"circuit": {"kind": "pipe", "base": bw, "ops": [["square"], ["conjugate"]]}, "core": True})
+        out.append({"circuit": {"kind": "pipe", "base": bw, "ops": [["multiply_other"], ["conjugate"], ["integrate", None]]}, "core": True})
+    out.append({"circuit": {"kind": "pipe", "base": bases[3], "ops": [["multiply_conj"], ["conjugate"]]}, "core": True})
+    out.append({"circuit": {"kind": "pipe", "base": bases[0], "ops": [["multiply_conj"], ["conjugate"], ["conjugate"]]}, "core": True})
     for c in out:
         # integrating a Categorical layer given by 'probs' uses the documented meaning of probs (they sum to one)
         if c["circuit"]["base"].get("input") == "cat-probs" and any(o[0] == "integrate" for o in c["circuit"]["ops"]):
@@ -71,8 +78,10 @@ def cases(tier, seed):
         return ["sum-product", "complex-lse-sum"] if "poly" in str(c) else ["sum-product", "lse-sum", "complex-lse-sum"]
 
     if tier == "quick":
+        core = [c for c in allc if c.get("core")]
+        allc = [c for c in allc if not c.get("core")]
         rnd.shuffle(allc)
-        for i, c in enumerate(allc[:30]):
+        for i, c in enumerate(core + allc[:26]):
             ss = sems_for(c)
             d = dict(c)
             d["semiring"] = ss[(i + seed) % len(ss)]
